@@ -3,13 +3,17 @@
 import json
 from pathlib import Path
 V = Path(__file__).resolve().parents[1]
-print("| seed | what the change does / what it needs | result of `./check` |")
-print("|------|----------------------------------------|----------------------|")
+print("| seed | what the change does / what it needs | first result and what catches it | final sweep |")
+print("|------|----------------------------------------|----------------------|------|")
 for d in sorted((V/"seeded").iterdir()):
     m = json.loads((d/"meta.json").read_text())
     what = (m.get("summary") or "").replace("\n", " ").replace("|", "/")[:260]
     needs = (m.get("needs_to_manifest") or "")
     if isinstance(needs, list): needs = "; ".join(map(str, needs))
     needs = str(needs).replace("\n", " ").replace("|", "/")[:200]
-    res = (m.get("confirmed_by_main_session", {}).get("check_result", "") + " — " + str(m.get("caught_by", ""))).replace("\n", " ").replace("|", "/")[:420]
-    print(f"| {d.name} | {what} **Needs:** {needs} | {res} |")
+    cbm = m.get("confirmed_by_main_session", {})
+    first = cbm.get("check_result", "") if isinstance(cbm, dict) else ""
+    res = ((first + " — ") if first else "") + ("first run: " + str(m["first_result"]) + ". " if m.get("first_result") else "") + str(m.get("caught_by", ""))
+    res = res.replace("\n", " ").replace("|", "/")[:420]
+    fin = "reported, failing input" if "with a failing input" in str(m.get("final_result", "")) else str(m.get("final_result", "-"))[:60]
+    print(f"| {d.name} | {what} **Needs:** {needs} | {res} | {fin} |")
